@@ -205,6 +205,73 @@ def h_lib_multi(ctx):
     return Outcome(f"lib-multi:{'ok' if not vs else 'bad'}", vs, nontrivial=(alg, n, where, rh, enc))
 
 
+def h_rsa_paddings(ctx):
+    """A JWE whose header names one RSA algorithm while its encrypted key was made with another RSA padding (every combination of
+    PKCS#1 v1.5, OAEP with SHA-1 / SHA-256 as hash and as MGF1 hash): it opens iff the padding is the one RFC 7518 gives for that name."""
+    from cryptography.hazmat.primitives import hashes
+    from cryptography.hazmat.primitives.asymmetric import padding
+    from ..ref.jwa import content_encrypt
+    label = ctx.choose("alg_in_header", ["RSA1_5", "RSA-OAEP", "RSA-OAEP-256"])
+    pads = {"PKCS1v15": padding.PKCS1v15(), "OAEP(SHA-1, MGF1-SHA-1)": padding.OAEP(padding.MGF1(hashes.SHA1()), hashes.SHA1(), None),
+            "OAEP(SHA-256, MGF1-SHA-256)": padding.OAEP(padding.MGF1(hashes.SHA256()), hashes.SHA256(), None),
+            "OAEP(SHA-256, MGF1-SHA-1)": padding.OAEP(padding.MGF1(hashes.SHA1()), hashes.SHA256(), None),
+            "OAEP(SHA-1, MGF1-SHA-256)": padding.OAEP(padding.MGF1(hashes.SHA256()), hashes.SHA1(), None),
+            "OAEP(SHA-256, MGF1-SHA-256, label)": padding.OAEP(padding.MGF1(hashes.SHA256()), hashes.SHA256(), b"jwe")}
+    actual = ctx.choose("padding_used", list(pads))
+    form = ctx.choose("form", ["compact", "flattened"])
+    enc = "A128GCM"
+    right = {"RSA1_5": "PKCS1v15", "RSA-OAEP": "OAEP(SHA-1, MGF1-SHA-1)", "RSA-OAEP-256": "OAEP(SHA-256, MGF1-SHA-256)"}[label]
+    jwk = scen.key("rsa")
+    cek = bytes(range(7, 23))
+    ek = rjwk.load(rjwk.public_of(jwk), private=False).encrypt(cek, pads[actual])
+    pseg = b64.enc(json.dumps({"alg": label, "enc": enc}, separators=(",", ":")).encode())
+    iv = bytes(range(12))
+    ct, tag = content_encrypt(enc, cek, iv, pseg.encode(), b"padding matters")
+    tok = ".".join([pseg, b64.enc(ek), b64.enc(iv), b64.enc(ct), b64.enc(tag)])
+    if form == "flattened":
+        tok = {"protected": pseg, "encrypted_key": b64.enc(ek), "iv": b64.enc(iv), "ciphertext": b64.enc(ct), "tag": b64.enc(tag)}
+    d = scen.jwe_decrypt(tok, A.jkey(jwk, "dict"), [label, enc])
+    vs = []
+    if actual == right:
+        if not d.ok or d.value[0] != b"padding matters":
+            vs.append(viol(f"joserfc cannot decrypt a JWE whose RSA padding is the one RFC 7518 names for {label}", f"{form}: {d.exc!r}"))
+    elif d.ok:
+        vs.append(viol(f"joserfc opens a JWE labelled {label} whose encrypted key was made with another RSA padding", f"{form}: padding used {actual}, RFC 7518 requires {right}"))
+    return Outcome(f"rsa-padding:{'match' if actual == right else 'cross'}:{'opened' if d.ok else 'refused'}", vs, nontrivial=(label, actual, form))
+
+
+def h_passphrases(ctx):
+    """PBES2 with pass-phrases that are text: the octets of the JWK's k are the password, exactly as they are (no normalisation),
+    in both directions between joserfc and the independent implementation."""
+    import unicodedata
+    alg = ctx.choose("alg", ["PBES2-HS256+A128KW", "PBES2-HS384+A192KW", "PBES2-HS512+A256KW"])
+    base = ctx.choose("pass-phrase", ["correct horse", "caf\u00e9 cr\u00e8me br\u00fbl\u00e9e", "\ud55c\uae00 pass", "\u212b\u2126\u212a units"])
+    form_ = ctx.choose("spelled_in", ["as given", "NFC", "NFD"])
+    direction = ctx.choose("direction", ["joserfc->ref", "ref->joserfc"])
+    ser_ = ctx.choose("form", ["compact", "general"])
+    text = base if form_ == "as given" else unicodedata.normalize(form_, base)
+    jwk = {"kty": "oct", "k": b64.enc(text.encode("utf-8"))}
+    key = A.jkey(jwk, "dict")
+    vs = []
+    what = f"{alg} pass-phrase {text!r} ({form_}), {ser_}"
+    if direction == "joserfc->ref":
+        r = scen.jwe_encrypt(ser_, {"alg": alg, "enc": "A128GCM", "p2c": 1000}, b"secret", key, [alg, "A128GCM"])
+        if not r.ok:
+            vs.append(viol("encryption with a text pass-phrase fails", f"{what}: {r.exc!r}"))
+        else:
+            try:
+                if rjwe.decrypt(r.value, jwk)[0] != b"secret":
+                    vs.append(viol("independent implementation decrypts joserfc's PBES2 token to other content", what))
+            except RefError as e:
+                vs.append(viol("independent implementation cannot decrypt joserfc's PBES2 token made with a text pass-phrase", f"{what}: {e!r}"))
+    else:
+        tok = rjwe.encrypt({"alg": alg, "enc": "A128GCM"}, b"secret", [{"jwk": jwk, "p2c": 1000}], form=ser_, rand=rjwe.Drbg(what.encode()))
+        d = scen.jwe_decrypt(tok, key, [alg, "A128GCM"])
+        if not d.ok or d.value[0] != b"secret":
+            vs.append(viol("joserfc cannot decrypt a PBES2 JWE of the independent implementation made with a text pass-phrase", f"{what}: {d.exc!r}"))
+    return Outcome(f"passphrase:{'ok' if not vs else 'bad'}", vs, nontrivial=(alg, base, form_, direction, ser_))
+
+
 _ZP = []
 
 
@@ -301,6 +368,8 @@ _pv.single_bucket_ok = True
 _pm = Part("ref-multi-recipient", h_ref_multi, split_depth=2)
 _pm.single_bucket_ok = True
 _pz = Part("zip-framing", h_zip_framing, split_depth=2)
+_pp8 = Part("pbes2-text-pass-phrases", h_passphrases, split_depth=2)
+_pp8.single_bucket_ok = True
 _pl = Part("joserfc-multi-recipient-to-ref", h_lib_multi, split_depth=2)
 _pl.single_bucket_ok = True
 _pz.single_bucket_ok = True
@@ -323,5 +392,7 @@ PARTS = [
     Part("ref-to-joserfc", h_from_ref, bound={"quick": 1, "thorough": 2}, split_depth=2, budget={"quick": 1500, "thorough": 2400}),
     Part("joserfc-to-ref", h_to_ref, bound={"quick": 1, "thorough": 2}, split_depth=2, budget={"quick": 1500, "thorough": 2400}),
     _pm, _pv, _pz, _pl,
+    Part("rsa-paddings-cross", h_rsa_paddings, split_depth=2),
+    _pp8,
     Part("one-header-dict-several-messages-to-ref", h_again, bound={"quick": 0, "thorough": 1}, split_depth=2),
 ]
